@@ -354,7 +354,7 @@ pub fn random_ends(rng: &mut Rng, n: usize) -> Vec<f64> {
 pub fn drive_evaluator(seed: u64, sessions: usize, with_nan: bool, sink: &mut Sink) {
     let mut rng = Rng::new(seed);
     for _ in 0..sessions {
-        let n = 1 + if rng.below(25) == 0 { 64 + rng.below(70) } else { rng.size(4, 40, 8) } as usize;
+        let n = if rng.below(20) == 0 { rng.long_len() } else { 1 + rng.size(4, 40, 8) as usize };
         let ends = random_ends(&mut rng, n);
         let pw = probe_pw(&ends);
         let alpha = alphabet(&ends, with_nan);
@@ -545,7 +545,7 @@ pub fn replay_evalv(lines: &[Value], seed: u64) -> ReplayReport {
 pub fn drive_evalv(seed: u64, batches: usize, with_nan: bool, sink: &mut Sink) {
     let mut rng = Rng::new(seed);
     for _ in 0..batches {
-        let n = 1 + if rng.below(25) == 0 { 64 + rng.below(70) } else { rng.size(4, 40, 8) } as usize;
+        let n = if rng.below(20) == 0 { rng.long_len() } else { 1 + rng.size(4, 40, 8) as usize };
         let ends = random_ends(&mut rng, n);
         let pw = probe_pw(&ends);
         let alpha = alphabet(&ends, false);
@@ -574,7 +574,7 @@ pub fn drive_evalv(seed: u64, batches: usize, with_nan: bool, sink: &mut Sink) {
 pub fn drive_select(seed: u64, lists: usize, sink: &mut Sink) {
     let mut rng = Rng::new(seed);
     for _ in 0..lists {
-        let n = 1 + if rng.below(25) == 0 { 64 + rng.below(70) } else { rng.size(4, 40, 8) } as usize;
+        let n = if rng.below(20) == 0 { rng.long_len() } else { 1 + rng.size(4, 40, 8) as usize };
         let ends = random_ends(&mut rng, n);
         let pw = probe_pw(&ends);
         let mut xs = alphabet(&ends, true);
@@ -715,8 +715,8 @@ pub fn replay_merge(lines: &[Value], seed: u64) -> ReplayReport {
 pub fn drive_merge(seed: u64, pairs: usize, sink: &mut Sink) {
     let mut rng = Rng::new(seed);
     for _ in 0..pairs {
-        let nf = 1 + rng.size(5, 30, 6) as usize;
-        let ng = 1 + rng.size(5, 30, 6) as usize;
+        let nf = if rng.below(50) == 0 { rng.long_len() } else { 1 + rng.size(5, 30, 6) as usize };
+        let ng = if rng.below(50) == 0 { rng.long_len() } else { 1 + rng.size(5, 30, 6) as usize };
         let fe = random_ends(&mut rng, nf);
         let ge = match rng.below(5) {
             0 => fe.clone(),                                             // identical
